@@ -4,8 +4,12 @@
    Model: Model/Cfg.v.  [pools_for iter r = Some out] is "config.For accepted the resource set r
    and returned the pools out" ([iter] = iteration order of the ByName map, irrelevant by C18).
    All statements are about the resource list in ANY order (config.For itself does not sort). *)
+(* Scope notes.  Address entries are tokenised ([addr]): the string level (strings.Contains "-",
+   TrimSpace, net.ParseCIDR / ParseIP) is covered by the harness only.  Label selectors are
+   matchLabels only (matchExpressions are not modelled).  Theorems marked BY DEFINITION restate a
+   boolean function of the model as a proposition (vocabulary, not coverage). *)
 From Coq Require Import List NArith Permutation.
-From Verif Require Import Model.Cfg Proofs.NetP Proofs.CfgSummP Proofs.CfgFuelP Proofs.CfgP Proofs.CfgRouteP Proofs.CfgL2P Proofs.CfgAggP Proofs.CfgPrefix.
+From Verif Require Import Model.Cfg Proofs.NetP Proofs.CfgSummP Proofs.CfgFuelP Proofs.CfgP Proofs.CfgRouteP Proofs.CfgL2P Proofs.CfgAggP Proofs.CfgAllocBridgeP Proofs.CfgPrefix.
 From Verif Require Import Model.CfgFull Proofs.CfgFullP.
 Local Open Scope N_scope.
 
@@ -28,7 +32,8 @@ Theorem C08_parse_addr_exact : forall a ps, parse_addr a = Some ps ->
   Forall (fun p => aligned p /\ wf_prefix p) ps.
 Proof. exact parse_addr_exact. Qed.
 
-(* ... and every well-formed entry is accepted (nothing the user may write is lost) *)
+(* a well-formed tokenised entry is not refused.  For ACidr / AMapped this restates the guard of
+   [parse_addr] (BY DEFINITION); the content is the ARange case (= C08_summarize_fuel_ok) *)
 Theorem C08_parse_accepts_wellformed : forall a,
   match a with
   | ACidr p => wf_prefix p
@@ -37,7 +42,8 @@ Theorem C08_parse_accepts_wellformed : forall a,
   end -> parse_addr a <> None.
 Proof. exact parse_accepts_wellformed. Qed.
 
-(* families are not mixed inside an accepted range (after fix F5) *)
+(* families are not mixed inside an accepted range (after fix F5).  BY DEFINITION of [parse_addr]
+   (the mixed patterns return None); the content is the correspondence with the Go code *)
 Theorem C08_range_one_family : forall s e ps, parse_addr (ARange s e) = Some ps ->
   ip_fam s = ip_fam e /\ ip_val s <= ip_val e.
 Proof. exact parse_range_same_family. Qed.
@@ -119,25 +125,57 @@ Theorem C08_aggregate_in_cidr : forall iter r out c, pools_for iter r = Some out
       contains q x = true -> contains (mask_to (agg_of b (pfam q)) x) y = true -> contains q y = true.
 Proof. exact aggregate_in_cidr. Qed.
 
-(* advertisementsAreCompatible is exactly "the two advertisements do not collide":
-   collide = a common node, overlapping peer sets (empty = all peers) and equal aggregation
-   length for a family the pool has *)
+(* BY DEFINITION: [collide] is the propositional reading of advertisementsAreCompatible
+   (a common node, overlapping peer sets (empty = all peers), equal aggregation length for a
+   family the pool has); the semantic statement is C08_one_route_one_localpref_same_pool *)
 Theorem C08_compatible_exact : forall a b p, compatible a b p = true <-> ~ collide a b p.
 Proof. exact compatible_spec. Qed.
 
-(* accepted => two advertisements attached to one pool with different local preferences never
-   collide; i.e. a resource set with such a pair is rejected *)
-Theorem C08_localpref_collision_rejected : forall iter r out p, pools_for iter r = Some out ->
+(* THE LOCAL-PREFERENCE CLAUSE.  validateBGPAdvPerPool looks at ONE pool at a time, so what is
+   proved in general is the same-pool form; across pools see below. *)
+(* accepted => two advertisements attached to the SAME pool with different local preferences
+   never collide *)
+Theorem C08_localpref_collision_rejected_same_pool : forall iter r out p, pools_for iter r = Some out ->
   In p (po_pools out) ->
   ForallOrdPairs (fun a b => ba_lp a <> ba_lp b -> ~ collide a b p) (p_bgp p).
 Proof. exact localpref_no_collision. Qed.
 
-(* ... conversely, in an accepted configuration one route (aggregate prefix, node, peer) never
-   gets two local preferences from two advertisements attached to the same pool *)
-Theorem C08_one_route_one_localpref : forall iter r out p, pools_for iter r = Some out -> In p (po_pools out) ->
+(* consequence in terms of routes: within ONE pool, one route (aggregate prefix, node, peer) never
+   gets two local preferences *)
+Theorem C08_one_route_one_localpref_same_pool : forall iter r out p, pools_for iter r = Some out -> In p (po_pools out) ->
   ForallOrdPairs (fun a b => forall x n pr, announces p a x n pr -> announces p b x n pr ->
                                             route a x = route b x -> ba_lp a = ba_lp b) (p_bgp p).
 Proof. exact one_route_one_localpref. Qed.
+
+(* ACROSS pools (and across two address entries of one pool), for entries that are one CIDR
+   ([In [q] (p_per_addr p)]: written as a CIDR in any notation, or a range that is one block):
+   two such entries that yield the same aggregate route contain each other's address ... *)
+Theorem C08_cidr_entries_share_no_route : forall iter r out p1 p2 q1 q2 b1 b2 x1 x2,
+  pools_for iter r = Some out -> In p1 (po_pools out) -> In p2 (po_pools out) ->
+  In [q1] (p_per_addr p1) -> In [q2] (p_per_addr p2) -> In b1 (p_bgp p1) -> In b2 (p_bgp p2) ->
+  contains q1 x1 = true -> contains q2 x2 = true -> route b1 x1 = route b2 x2 ->
+  contains q1 x2 = true /\ contains q2 x1 = true.
+Proof. exact cidr_entries_share_no_route. Qed.
+
+(* ... so two DIFFERENT CIDR entries (disjoint by C08_accepted_disjoint) never produce the same
+   route at all: for pools written as CIDRs the clause holds across pools, whatever the local
+   preferences *)
+Theorem C08_disjoint_cidr_entries_share_no_route : forall iter r out p1 p2 q1 q2 b1 b2 x1 x2,
+  pools_for iter r = Some out -> In p1 (po_pools out) -> In p2 (po_pools out) ->
+  In [q1] (p_per_addr p1) -> In [q2] (p_per_addr p2) -> In b1 (p_bgp p1) -> In b2 (p_bgp p2) ->
+  disjoint q1 q2 -> contains q1 x1 = true -> contains q2 x2 = true -> route b1 x1 <> route b2 x2.
+Proof. exact disjoint_cidr_entries_share_no_route. Qed.
+
+(* ... but the unrestricted clause is FALSE for range-written pools, in the model and in the
+   real config.For (reproduced): pools 0.0.0.10-0.0.0.15 and 0.0.0.4-0.0.0.9, one advertisement
+   each with aggregation length 30 and local preference 100 / 200, every peer, one node: accepted,
+   and both announce 0.0.0.8/30 from node 1 with two local preferences.  Recorded as a finding. *)
+Theorem C08_localpref_cross_pool_refuted :
+  exists r out p1 p2 b1 b2 x1 x2 n pr,
+    pools_for (fun l => l) r = Some out /\ In p1 (po_pools out) /\ In p2 (po_pools out) /\ p_name p1 <> p_name p2 /\
+    In b1 (p_bgp p1) /\ In b2 (p_bgp p2) /\ announces p1 b1 x1 n pr /\ announces p2 b2 x2 n pr /\
+    route b1 x1 = route b2 x2 /\ ba_lp b1 <> ba_lp b2.
+Proof. exact localpref_cross_pool_refuted. Qed.
 
 (* ... and at most one of every class: the L2 advertisements of an accepted pool are pairwise
    different for containsAdvertisement, so Pool.L2Advertisements is exactly the set of
@@ -146,6 +184,7 @@ Theorem C08_l2_no_duplicates : forall iter r out p, pools_for iter r = Some out 
   ForallOrdPairs (fun a b => l2adv_eqb a b = false) (p_l2 p).
 Proof. exact l2_no_duplicates. Qed.
 
+(* BY DEFINITION: the three-field reading of containsAdvertisement's comparison *)
 Theorem C08_l2adv_eqb_exact : forall a b, l2adv_eqb a b = true <->
   la_all a = la_all b /\ la_nodes a = la_nodes b /\ setN (la_ifaces a) = setN (la_ifaces b).
 Proof. exact l2adv_eqb_spec. Qed.
@@ -154,7 +193,7 @@ Proof. exact l2adv_eqb_spec. Qed.
    largest one of the summarised range) inside which aggregates stay ... *)
 Theorem C08_aggregate_in_some_block : forall iter r out c, pools_for iter r = Some out -> In c (r_pools r) ->
   exists p, In p (po_pools out) /\ p_name p = pl_name c /\
-    forall a cs b, In a (pl_addrs c) -> parse_addr a = Some cs -> cs <> [] -> In b (p_bgp p) ->
+    forall a cs b, In a (pl_addrs c) -> parse_addr a = Some cs -> In b (p_bgp p) ->
       exists q, In q cs /\ plen q <= agg_of b (pfam q) /\
         forall x y, contains q x = true -> contains (mask_to (agg_of b (pfam q)) x) y = true -> contains q y = true.
 Proof. exact aggregate_in_some_block. Qed.
@@ -162,6 +201,7 @@ Proof. exact aggregate_in_some_block. Qed.
 (* ... and no more: for a pool written as the range 0.0.0.2-0.0.0.7 an accepted advertisement
    with aggregationLength 30 aggregates the pool address 0.0.0.2 to 0.0.0.0/30, which contains
    an address outside the pool.  (The property restricts the clause to pools written as CIDRs.) *)
+(* (a boundary witness: the property's clause is restricted to pools written as CIDRs) *)
 Theorem C08_aggregate_in_range_refuted :
   exists r out p b x y, pools_for (fun l => l) r = Some out /\ In p (po_pools out) /\ In b (p_bgp p) /\
     in_prefixes (p_cidrs p) x /\ contains (mask_to (agg_of b (ip_fam x)) x) y = true /\
@@ -170,6 +210,7 @@ Proof. exact aggregate_in_range_refuted. Qed.
 
 (* the whole config.For (Model/CfgFull.v): an accepted configuration never advertises a pool
    that contains IPv6 to a peer whose BFD profile has echo mode (validateConfig) ... *)
+(* BY DEFINITION: full_for ends with [validate_config]; [reaches_echo] is its reading *)
 Theorem C08_no_echo_towards_ipv6_pool : forall iter m fr c, full_for iter m fr = Some c ->
   forall p a, In p (po_pools (fc_pools c)) -> (exists x, In x (p_cidrs p) /\ pfam x = F6) -> In a (p_bgp p) ->
               ~ reaches_echo (fc_bfds c) (fc_peers c) a.
@@ -185,10 +226,23 @@ Proof. exact accepted_names_unique. Qed.
 
 (* ... and its pools part is poolsFor of the same resources, so every C08 theorem above
    applies to it *)
+(* BY DEFINITION (unfolding of full_for); needed as the bridge from config.For to pools_for *)
 Theorem C08_full_pools_are_pools_for : forall iter m fr c, full_for iter m fr = Some c ->
   exists tbl bgp, comms_for (f_comms fr) = Some tbl /\ resolve_bgp tbl (f_bgp fr) = Some bgp /\
                   pools_for iter (base_of fr bgp) = Some (fc_pools c).
 Proof. exact full_pools_are_pools_for. Qed.
+
+(* an accepted entry is never empty (after F5) *)
+Theorem C08_parsed_entry_nonempty : forall a cs, parse_addr a = Some cs -> cs <> [].
+Proof. exact parse_addr_nonempty. Qed.
+
+(* bridge to the allocator model (Model/Alloc.v, C01/C02/C07): the pools of an accepted
+   configuration, translated by [to_alloc_pools], have unique names and pairwise disjoint address
+   sets in the allocator's sense - what AllocPolicyP assumes of its configuration *)
+Theorem C08_accepted_pools_for_allocator : forall iter r out, pools_for iter r = Some out ->
+  AllocPolicyP.names_unique (to_alloc_pools out) /\
+  AllocPolicyP.pools_disjoint (Alloc.by_name (to_alloc_pools out)).
+Proof. exact accepted_pools_for_allocator. Qed.
 
 (* non-vacuity: a range crossing alignment boundaries, the F4 pair after the fix *)
 Example C08_nonvacuous :
@@ -199,3 +253,39 @@ Example C08_nonvacuous :
   parse_addr (ARange (V4 16909060) (V6 340277174624079928635746076935438991361)) = None /\
   summarize F4 0 4294967295 = Some [Build_prefix F4 0 0].
 Proof. vm_compute. repeat split. Qed.
+
+(* non-vacuity of the accepted-configuration theorems: two nodes with internal IPs outside the
+   pools, a pool written as CIDR + range carrying an L2 advertisement and two BGP advertisements
+   with different local preferences AND different aggregation lengths (so they do not collide),
+   a second pool selected by label: accepted; the advertisements announce pool addresses *)
+Definition nv_res : resources :=
+  {| r_pools := [{| pl_name := 1; pl_labels := [(0, 1)]; pl_addrs := [ACidr (Build_prefix F4 2560 24); ARange (V4 5000) (V4 5009)];
+                    pl_avoid := false; pl_auto := true; pl_alloc := None |};
+                 {| pl_name := 2; pl_labels := [(0, 2)]; pl_addrs := [ACidr (Build_prefix F4 7680 24)];
+                    pl_avoid := true; pl_auto := true; pl_alloc := None |}];
+     r_l2 := [{| l2_name := 1; l2_pools := [1]; l2_psels := []; l2_nsels := []; l2_ifaces := [3] |}];
+     r_bgp := [{| bg_name := 1; bg_agg4 := 32; bg_agg6 := 128; bg_lp := 100; bg_comms := [5]; bg_peers := [];
+                  bg_pools := [1]; bg_psels := []; bg_nsels := [] |};
+               {| bg_name := 2; bg_agg4 := 24; bg_agg6 := 128; bg_lp := 200; bg_comms := []; bg_peers := [4];
+                  bg_pools := []; bg_psels := [[(0, 2)]]; bg_nsels := [[(9, 1)]] |}];
+     r_nodes := [{| nd_name := 1; nd_labels := [(9, 1)]; nd_ips := [V4 1000] |};
+                 {| nd_name := 2; nd_labels := []; nd_ips := [V4 1001; V6 77] |}];
+     r_nss := []; r_peers := []; r_bfds := []; r_comms := [] |}.
+Example C08_nonvacuous_accepted :
+  exists out p1 p2 b1 b2,
+    pools_for (fun l => l) nv_res = Some out /\ po_pools out = [p1; p2] /\
+    p_bgp p1 = [b1] /\ p_bgp p2 = [b2] /\ length (p_l2 p1) = 1%nat /\
+    ba_nodes b1 = [1; 2] /\ ba_nodes b2 = [1] /\
+    announces p1 b1 (V4 5003) 2 9 /\ announces p2 b2 (V4 7700) 1 4 /\ route b2 (V4 7700) = Build_prefix F4 7680 24.
+Proof.
+  destruct (pools_for (fun l => l) nv_res) as [out|] eqn:E; [|vm_compute in E; discriminate].
+  vm_compute in E. injection E as <-.
+  eexists. eexists. eexists. eexists. eexists.
+  split; [reflexivity|]. split; [reflexivity|]. split; [reflexivity|]. split; [reflexivity|].
+  split; [reflexivity|]. split; [reflexivity|]. split; [reflexivity|]. split; [|split].
+  - split; [|split; [right; left; reflexivity|left; reflexivity]].
+    eexists. split; [right; left; reflexivity|]. vm_compute. reflexivity.
+  - split; [|split; [left; reflexivity|right; left; reflexivity]].
+    eexists. split; [left; reflexivity|]. vm_compute. reflexivity.
+  - vm_compute. reflexivity.
+Qed.
